@@ -219,7 +219,8 @@ class BuilderDriver:
                 opts = BUILDERS[self.bname]
                 if opts.get('iterate_mass'):
                     left = abs(float(traj.fuel_mass[-1])) / float(traj.total_fuel_mass)
-                    if not left < opts['mass_iter_reltol']:
+                    slack = 64.0 * float(np.spacing(float(traj.starting_mass))) / float(traj.total_fuel_mass)
+                    if not left < opts['mass_iter_reltol'] + slack:
                         vio.append(V('iteration-tolerance', f'{where}: leftover trip fuel fraction {left} >= tolerance {opts["mass_iter_reltol"]}'))
                         break
         return {'violations': vio, 'key': {'fp': _fingerprint(b), 'n': 0}, 'model': {}, 'outcomes': outcomes}
@@ -268,7 +269,11 @@ def stair_case(variant, ev, reltol, cap):
         return [V(kind, f'{where}: raised {got[1]}: {got[2]}', case=case)], None, 'exc:' + got[1]
     left = abs(float(traj.fuel_mass[-1])) / float(traj.total_fuel_mass)
     vio = []
-    if not (np.isfinite(left) and left < reltol):
+    # The builder judges convergence on (trip fuel - (starting mass - final aircraft mass)) / trip fuel, the check on
+    # the stored remaining fuel: the same quantity rounded along two different bookkeeping paths. They can differ by
+    # a few units in the last place of the aircraft mass; that much, and no more, is granted.
+    slack = 64.0 * float(np.spacing(float(traj.starting_mass))) / float(traj.total_fuel_mass)
+    if not (np.isfinite(left) and left < reltol + slack):
         vio.append(V('iteration-tolerance', f'{where}: returned a trajectory whose leftover trip fuel fraction {left!r} '
                      f'is not below the requested tolerance and no non-convergence was reported', case=case))
     return vio, left, 'ok'
